@@ -219,9 +219,9 @@ def w_align(ctx, rng, i):
     n = int(rng.integers(max(3, d + 1), 41 if ctx.tier == "thorough" else 16))
     opts = {}
     if kind == "AlignmentSimilarity":
-        opts = {"rotation": bool(rng.random() < 0.75), "allow_mirror": bool(rng.random() < 0.4)}
+        opts = {"rotation": gen.flag(rng, 0.75), "allow_mirror": gen.flag(rng, 0.4)}
     if kind == "AlignmentRotation":
-        opts = {"allow_mirror": bool(rng.random() < 0.4)}
+        opts = {"allow_mirror": gen.flag(rng, 0.4)}
     mirrored_target = False
     if warp:
         if kind == "ThinPlateSplines":
@@ -320,7 +320,7 @@ def w_align(ctx, rng, i):
             # the affine fit goes through the normal equations (condition number squared); the other families centre the data first
             rtol = max(1e-7, 1e-13 * cond ** 2) if kind == "AlignmentAffine" else max(1e-9, 3e-14 * cond)
             if not (e <= rtol * max(1.0, np.abs(tr).max(), np.abs(tgt).max())) or not (t.alignment_error() <= rtol * max(1.0, np.abs(tgt).max()) * np.sqrt(len(src))):
-                ctx.fail("family_member_not_recovered", cls=kind, mech=str(sorted(opts.items())), err=float(e))
+                ctx.fail("family_member_not_recovered", cls=kind, mech=str(sorted((k_, bool(v_) if isinstance(v_, (bool, np.bool_, int)) else v_) for k_, v_ in opts.items())), err=float(e))
         disturb(ctx, rng, t, src, tgt, opts)
         if rng.random() < 0.3:
             # the caller refreshes the coordinates of the target object it handed over (in place) and hands the same object over again
@@ -346,7 +346,7 @@ def w_align(ctx, rng, i):
         if cnd_ < 1e6:
             back = np.asarray(inv.apply(np.asarray(t.apply(srcf.copy()))))
             if not (tx.maxdiff(back, srcf) <= 1e-9 * cnd_ * sc_):
-                ctx.fail("inverse_alignment_does_not_undo_the_alignment", cls=kind, mech=str(sorted(opts.items())), err=tx.maxdiff(back, srcf))
+                ctx.fail("inverse_alignment_does_not_undo_the_alignment", cls=kind, mech=str(sorted((k_, bool(v_) if isinstance(v_, (bool, np.bool_, int)) else v_) for k_, v_ in opts.items())), err=tx.maxdiff(back, srcf))
             if noise == 0.0 and not (float(inv.alignment_error()) <= 1e-7 * cnd_ * sc_ * np.sqrt(len(srcf))):
                 ctx.fail("inverse_alignment_does_not_undo_the_alignment", cls=kind, mech="exact_member:alignment_error", err=float(inv.alignment_error()))
         if rng.random() < 0.5:
@@ -359,7 +359,7 @@ def w_align(ctx, rng, i):
             ctx.tap("inverse_alignment_retargeted", "calls"); ctx.tap("inverse_alignment_retargeted", "checked")
             judge_common(ctx, inv, isrc, tgt4, "inverse_retargeted")
             align.judge_family(ctx, inv, isrc, tgt4, opts, "inverse_retargeted")
-    ctx.count_case((kind, d, str(sorted(opts.items())), noise, mirrored_target, 0 if n < 6 else 1 if n < 15 else 2), nontrivial=True,
+    ctx.count_case((kind, d, str(sorted((k_, bool(v_) if isinstance(v_, (bool, np.bool_, int)) else v_) for k_, v_ in opts.items())), noise, mirrored_target, 0 if n < 6 else 1 if n < 15 else 2), nontrivial=True,
                    sample={"kind": kind, "dims": d, "options": opts, "noise": noise, "n_points": n, "mirrored_target": mirrored_target} if i < 8 else None)
 
 
